@@ -185,7 +185,7 @@ def format_styles():
     ]
 
 
-KS_CELLS = ("0", "1", "1[0]", "2[7]", "M[12]", "4[123]", "M", "3")
+KS_CELLS = ("0", "1", "1[0]", "2[7]", "M[12]", "4[123]", "M", "3", "1[007]")
 
 
 # ---------------------------------------------------------------------------
